@@ -1,6 +1,7 @@
 """C10 — no input can inject into or split the HTTP request on the wire.
 
-case = {"level": 1|2|3, "method": str, "url": str, "headers": [[name, value], ...]}
+case = {"level": 1|2|3, "method": str, "url": str, "headers": [[name, value], ...],
+        "body": absent | ["bytes", b] | ["str", s] | ["iter", [str or bytes chunks]] (sent chunked) - cases with a body are judged by the oracle only}
 level 1: HTTPConnection("h.example", 80).request(method, url, headers=...)         (url used as given)
 level 2: HTTPConnectionPool("h.example", 80).urlopen(method, url, headers=...)      (url starts with "/")
 level 3: PoolManager().request(method, "http://h.example" + url, headers=...)
@@ -15,12 +16,13 @@ ID = "C10"
 GEN = ["Gen_Inject", "Gen_Body"]
 RULE = ("methods, URL parts, header names and header values drawn from a hostile alphabet (CR, LF, CRLF, NUL, DEL, SP, HTAB, ':', non-ASCII, percent "
         "escapes, embedded complete requests, obs-fold continuations, the SKIP_HEADER sentinel) mixed with ordinary ones, caller-supplied and suppressed "
-        "Host / Accept-Encoding / User-Agent, through HTTPConnection.request, HTTPConnectionPool.urlopen and PoolManager.request; "
+        "Host / Accept-Encoding / User-Agent, bodies (bytes, text, iterables of text and bytes chunks with non-ASCII characters and embedded chunk "
+        "terminators / complete requests), through HTTPConnection.request, HTTPConnectionPool.urlopen and PoolManager.request; "
         "non-trivial = some hostile character present; distinct = distinct (case, observation)")
 TRUSTED_BASE = [
     "model coq/model/ReqHead.v (HTTPConnection.request / putrequest / putheader and, below them, http.client's validation and output of Python 3.12) with coq/model/Url.v for the target",
     "the reader the theorems use is a strict CRLF reader with obs-fold; what lenient servers make of a bare LF or CR inside a folded value is outside",
-    "body-less requests (the body comes after the head and cannot change it); HTTP/2 header validity is checked by the oracle only",
+    "the model covers the head; requests with a body are read back by the oracle's own strict reader (head, then exactly the declared length or a well-formed chunked body carrying exactly the payload, and nothing after it); HTTP/2 header validity is checked by the oracle only",
 ]
 ASSUMPTIONS = ["header names are distinct case-insensitively", "str inputs (not bytes)"]
 EXHAUSTIVE = {"quick": False, "thorough": False}
@@ -37,7 +39,21 @@ def encode(case):
 
 
 def describe(case):
-    return case
+    d = dict(case)
+    if d.get("body"):
+        d["body"] = [d["body"][0], repr(d["body"][1])]
+    return d
+
+
+def in_model_domain(case):
+    return not case.get("body")
+
+
+def payload_of(body):
+    kind, v = body
+    if kind == "iter":
+        return b"".join(x.encode("utf-8") if isinstance(x, str) else bytes(x) for x in v if x)
+    return v.encode("utf-8") if isinstance(v, str) else bytes(v)
 
 
 _STASH = {}
@@ -58,26 +74,33 @@ def impl(case):
                 sent.extend(data)
                 if b"\r\n\r\n" in bytes(sent) and not getattr(peer, "answered", False):
                     peer.answered = True
-                    peer.send(http_response(200, "OK", [("Connection", "close")], b"ok"))
-                    peer.eof()
+                    if case.get("body"):
+                        peer.send(http_response(200, "OK", [], b"ok"))          # the body is still being written
+                    else:
+                        peer.send(http_response(200, "OK", [("Connection", "close")], b"ok"))
+                        peer.eof()
             return Peer(on_data)
 
     net = Net10()
     problems = []
     headers = {n: v for n, v in case["headers"]}
     out = None
+    kw = {}
+    if case.get("body"):
+        kind, v = case["body"]
+        kw["body"] = iter(list(v)) if kind == "iter" else v
     with installed(net):
         try:
             if case["level"] == 1:
                 c = HTTPConnection("h.example", 80)
-                c.request(case["method"], case["url"], headers=headers)
+                c.request(case["method"], case["url"], headers=headers, **kw)
                 c.getresponse()
             elif case["level"] == 2:
                 p = HTTPConnectionPool("h.example", 80)
-                p.urlopen(case["method"], case["url"], headers=headers, retries=False, redirect=False)
+                p.urlopen(case["method"], case["url"], headers=headers, retries=False, redirect=False, **kw)
             else:
                 pm = urllib3.PoolManager()
-                pm.request(case["method"], "http://h.example" + case["url"], headers=headers, retries=False, redirect=False)
+                pm.request(case["method"], "http://h.example" + case["url"], headers=headers, retries=False, redirect=False, **kw)
             out = [0, list(bytes(sent))]
         except http.client.InvalidURL:
             out = [1, 2]
@@ -103,7 +126,7 @@ def impl(case):
 def read_head(w):
     """(method, target, [(name, value)]) of the single request in w, or None"""
     end = w.find(b"\r\n\r\n")
-    if end < 0 or end + 4 != len(w):
+    if end < 0:
         return None
     raw = w[:end].split(b"\r\n")
     lines = []
@@ -124,6 +147,40 @@ def read_head(w):
     return parts[0], parts[1], hs
 
 
+def read_chunked_exactly(b):
+    """the payload of a chunked body that fills b exactly (sizes in plain hexadecimal, no extensions, no trailers), or None"""
+    out = b""
+    i = 0
+    while True:
+        j = b.find(b"\r\n", i)
+        if j < 0:
+            return None
+        size = b[i:j]
+        if not size or any(c not in b"0123456789abcdefABCDEF" for c in size):
+            return None
+        n = int(size, 16)
+        if n == 0:
+            return out if b[j:] == b"\r\n\r\n" else None
+        data = b[j + 2:j + 2 + n]
+        if len(data) != n or b[j + 2 + n:j + 4 + n] != b"\r\n":
+            return None
+        out += data
+        i = j + 4 + n
+
+
+def pct_decode(b):
+    out = bytearray()
+    i = 0
+    while i < len(b):
+        if b[i:i + 1] == b"%" and len(b) >= i + 3 and all(c in b"0123456789abcdefABCDEF" for c in b[i + 1:i + 3]):
+            out.append(int(b[i + 1:i + 3], 16))
+            i += 3
+        else:
+            out.append(b[i])
+            i += 1
+    return bytes(out)
+
+
 def oracle(case, obs):
     problems, sent = _STASH.pop(id(case), ([], b""))
     if problems:
@@ -134,6 +191,24 @@ def oracle(case, obs):
     if r is None:
         return "the bytes written are not exactly one HTTP/1.1 request head: %r" % sent[:120]
     method, target, hs = r
+    after_head = sent[sent.find(b"\r\n\r\n") + 4:]
+    body = case.get("body")
+    framing = None
+    if body:
+        payload = payload_of(body)
+        if body[0] == "iter":
+            framing = (b"Transfer-Encoding", b"chunked")
+            got = read_chunked_exactly(after_head)
+            if got is None:
+                return "what follows the head is not one well-formed chunked body ending the request: %r" % after_head[:100]
+            if got != payload:
+                return "the chunked body carries %d bytes, the caller's chunks are %d bytes" % (len(got), len(payload))
+        else:
+            framing = (b"Content-Length", str(len(payload)).encode())
+            if after_head != payload:
+                return "the %d bytes after the head are not the caller's %d body bytes" % (len(after_head), len(payload))
+    elif after_head:
+        return "bytes follow the head of a request without a body: %r" % after_head[:100]
     want_method = case["method"].upper() if case["level"] == 3 else case["method"]
     try:
         if method != want_method.encode("ascii"):
@@ -142,6 +217,21 @@ def oracle(case, obs):
         return "a non-ASCII method was written"
     if any(c in target for c in (b" ", b"\r", b"\n", b"\x00")) or (b"#" in target and case["level"] != 1):
         return "the request target contains an illegal character: %r" % target
+    # the target is the requested one: percent-decoded, it is the requested URL's bytes (fragment dropped, "" read as "/")
+    if case["level"] != 1:
+        for i in range(len(target)):
+            if target[i:i + 1] == b"%" and not (len(target) >= i + 3 and all(c in b"0123456789abcdefABCDEF" for c in target[i + 1:i + 3])):
+                return "the request target has a malformed percent-escape: %r" % target
+        asked = case["url"].split("#")[0]
+        if not asked.startswith("/"):
+            asked = "/" + asked
+        try:
+            # (when some '%' of the URL is no escape, urllib3 takes every '%' literally and only normalises the case of what looks like one)
+            askedb = asked.encode("utf-8")
+            if pct_decode(target) != pct_decode(askedb) and pct_decode(target).lower() != askedb.lower():
+                return "the request target %r does not stand for the requested %r" % (target, asked)
+        except UnicodeEncodeError:
+            pass
     given = [(n, v) for n, v in case["headers"] if v != "@@@SKIP_HEADER@@@"]
     names_given = {n.lower() for n, v in case["headers"]}
     auto = []
@@ -149,7 +239,9 @@ def oracle(case, obs):
         auto.append((b"Host", b"h.example"))
     if "accept-encoding" not in names_given:
         auto.append((b"Accept-Encoding", b"identity"))
-    if want_method.upper() not in ("GET", "HEAD", "DELETE", "TRACE", "OPTIONS", "CONNECT"):
+    if framing is not None:
+        auto.append(framing)
+    elif want_method.upper() not in ("GET", "HEAD", "DELETE", "TRACE", "OPTIONS", "CONNECT"):
         auto.append((b"Content-Length", b"0"))
     if "user-agent" not in names_given:
         auto.append((b"User-Agent", ua().encode()))
@@ -173,6 +265,8 @@ HOSTILE = ["\r", "\n", "\r\n", "\x00", "\x7f", " ", "\t", ":", "é", "€", "%0d
 
 def nontrivial(case, obs):
     text = case["method"] + case["url"] + "".join(n + v for n, v in case["headers"])
+    if case.get("body"):
+        return hashlib.sha1(repr((case, obs)).encode()).hexdigest()[:16]
     if not any(h in text for h in HOSTILE):
         return None
     return hashlib.sha1(repr((case, obs)).encode()).hexdigest()[:16]
@@ -225,8 +319,39 @@ def one_case(rng):
     return {"level": level, "method": method, "url": url, "headers": hs}
 
 
+SMUGGLE = "\r\n0\r\n\r\nGET /admin HTTP/1.1\r\nHost: h\r\n\r\n"
+BODY_TEXTS = ["plain", "", "é", "€uro", "é" * len(SMUGGLE) + "xx" + SMUGGLE, "é" * 3 + "\r\n0\r\n\r\n", "a\r\nb", "0\r\n\r\n", SMUGGLE,
+              "\u00e9\u00e9\r\n", "x" * 17, "\U0001f600" * 4 + SMUGGLE]
+
+
+def rand_body(rng):
+    k = rng.random()
+    if k < 0.25:
+        return ["bytes", rng.choice(BODY_TEXTS).encode("utf-8")]
+    if k < 0.5:
+        return ["str", rng.choice(BODY_TEXTS)]
+    chunks = []
+    for _ in range(rng.randint(1, 3)):
+        t = rng.choice(BODY_TEXTS)
+        chunks.append(t if rng.random() < 0.7 else t.encode("utf-8"))
+    return ["iter", chunks]
+
+
 def cases(rng, tier):
     out = []
+    # bodies: every text as bytes, as str and as a chunk of an iterable, at every level
+    for level in (1, 2, 3):
+        for method in ("POST", "GET"):
+            for t in BODY_TEXTS:
+                base = {"level": level, "method": method, "url": "/a/b", "headers": [["X-A", "val"]]}
+                out.append(dict(base, body=["bytes", t.encode("utf-8")]))
+                out.append(dict(base, body=["str", t]))
+                out.append(dict(base, body=["iter", [t]]))
+                out.append(dict(base, body=["iter", ["head", t, b"tail"]]))
+    for _ in range(300 if tier == "quick" else 6000):
+        c = one_case(rng)
+        c["body"] = rand_body(rng)
+        out.append(c)
     # every hostile string at every insertion point of method, url, one header name and one header value
     for level in (1, 2, 3):
         for hst in HOSTILE:
